@@ -5,7 +5,12 @@ CONSTANTS
   Dims <- D_none
   Scale <- S_none
   Fixes = {"F1","F2","F3","F4","F7","F9"}
-  Check = {"C01","C03","C04","C05","C06","C11","C20","REF"}
-INVARIANT Inv
-POSTCONDITION Post
+  Depth = 7
+  MaxId = 8
+  Hist = FALSE
+  Kinds = {1,2,3,4,5,6}
+  EmitCat = TRUE
+CONSTRAINT Bound
+VIEW View
+INVARIANT Emit
 CHECK_DEADLOCK FALSE
